@@ -56,6 +56,8 @@ def main():
     t1 = float(sys.argv[3]) if len(sys.argv) > 3 else 1e9
     prop = w["property"]
     mod = importlib.import_module("checks." + prop.lower())
+    if not hasattr(mod, "scn"):
+        mod = importlib.import_module("checks._sess")
     params = w["witness"]["params"]
     with core.Build() as b:
         srv, cli = b.sim_binaries()
@@ -77,7 +79,9 @@ def main():
                                                              (proto.frame_ident(kw["data"]) or 0) & 0xFFFFF))
                 elif kind in ("wait",):
                     print("%10.4f %-10s %-8s fds=%s to=%s" % (ts, kind, who, kw["fds"], kw["timeout"]))
-                elif kind in ("recv", "deliver"):
+                elif kind == "recv":
+                    print("%10.4f %-10s %-8s %s" % (ts, kind, who, describe(kw["data"])))
+                elif kind == "deliver":
                     pass
                 else:
                     print("%10.4f %-10s %-8s %s" % (ts, kind, who, str(kw)[:150]))
